@@ -3,19 +3,46 @@
 (* and walks the one call to its end; the behaviour is written as one       *)
 (* ndjson plan: line 1 = [ev |-> "init", cfg |-> ...] (what the harness     *)
 (* executes), the remaining lines = the events the specification expects.   *)
-(* A call is shorter than Depth, so the finished call idles until then.     *)
+(* The choices are made step by step (pc = "plan": pick a length, add that  *)
+(* many steps, then seal with arguments / faults / cancellation point), so  *)
+(* that simulation need not enumerate every configuration as an initial     *)
+(* state.  A call is shorter than Depth: the finished call idles until then.*)
 EXTENDS Transact, TLCExt, Json, IOUtils
 CONSTANT Depth
+VARIABLE want                      \* number of steps this plan will have
 ASSUME TLCSet(2, 0)
 
-Idle == pc = "done" /\ UNCHANGED vars /\ last' = [ev |-> "idle"]
-GenNext == Next \/ Idle
-GenSpec == Init /\ [][GenNext]_allvars
+gvars == <<allvars, want>>
+Blank == MkCfg(0, <<>>, TRUE, TRUE, TRUE, -1)
+
+GenInit ==
+  /\ want \in 0..MaxSteps
+  /\ cfg = Blank /\ pc = "plan" /\ cur = 0 /\ nex = 0 /\ fail = 0
+  /\ begun = <<>> /\ ran = <<>> /\ execs = <<>> /\ fin = <<>> /\ ret = NoRet
+  /\ last = [ev |-> "plan"]
+
+AddStep ==
+  /\ pc = "plan" /\ Len(cfg.steps) < want
+  /\ \E s \in StepRecs : cfg' = [cfg EXCEPT !.steps = Append(@, s)]
+  /\ last' = [ev |-> "plan"]
+  /\ UNCHANGED <<pc, cur, nex, fail, begun, ran, execs, fin, ret, want>>
+
+Seal ==
+  /\ pc = "plan" /\ Len(cfg.steps) = want
+  /\ \E n \in 0..MaxArgs, b, c, r \in BOOLEAN, k \in CancelPts(want) :
+       /\ n = 0 => want = 0
+       /\ cfg' = MkCfg(n, cfg.steps, b, c, r, k)
+  /\ pc' = "start" /\ last' = [ev |-> "init", cfg |-> cfg']
+  /\ UNCHANGED <<cur, nex, fail, begun, ran, execs, fin, ret, want>>
+
+Idle == pc = "done" /\ UNCHANGED <<vars, want>> /\ last' = [ev |-> "idle"]
+GenNext == AddStep \/ Seal \/ (Next /\ UNCHANGED want) \/ Idle
+GenSpec == GenInit /\ [][GenNext]_gvars
 
 Emit ==
   \/ TLCGet("level") < Depth
   \/ /\ TLCSet(2, TLCGet(2) + 1)
      /\ ndJsonSerialize(IOEnv.VERIF_PLANDIR \o "/p" \o ToString(TLCGet(2)) \o ".ndjson",
                         SelectSeq([i \in 1..Len(Trace) |-> Trace[i].last],
-                                  LAMBDA x : x.ev # "idle"))
+                                  LAMBDA x : x.ev \notin {"idle", "plan"}))
 =============================================================================
